@@ -18,7 +18,8 @@ Verdict(c) ==
       k0 == Follow(m, c.kernel, c.obs, {})
       Good(n) == {D \in SUBSET Devs(m.isa) : Cardinality(D) = n /\ Follow(m, c.kernel, c.obs, D) = 0}
       Pick1(S) == CHOOSE X \in S : TRUE
-  IN IF k0 = 0 THEN <<"ok", {}, 0>>
+  IN IF Len(c.obs) # Len(c.kernel) THEN <<"length-mismatch", {}, 0>>
+     ELSE IF k0 = 0 THEN <<"ok", {}, 0>>
      ELSE IF Good(1) # {} THEN <<"dev", Pick1(Good(1)), k0>>
      ELSE IF Good(2) # {} THEN <<"dev", Pick1(Good(2)), k0>>
      ELSE IF Good(3) # {} THEN <<"dev", Pick1(Good(3)), k0>>
